@@ -80,6 +80,13 @@ const NEEDED: &[&str] = &[
     "tamper/other-keys-name",
     "tamper/other-algorithm-of-same-name",
     "tamper/unknown-algorithm",
+    "tamper/algorithm-name-with-extra-labels",
+    "tamper/algorithm-label-with-valid-prefix",
+    "unsigned-after-rejected-first-still-rejected",
+    "genuine-first-after-rejected-first-verified",
+    "genuine-answer-after-rejected-answer-verified",
+    "second-rejected-message-before-first-answer",
+    "history-continues-after-rejected-first",
     "middleware-exchange-verified",
     "client-wrapper/verified",
     "client-wrapper/rejected",
@@ -116,10 +123,10 @@ pub fn prop() -> Option<Prop> {
             "messages enter the signing calls through a custom Composer target pre-loaded with generated message octets (AdditionalBuilder has no public constructor from octets)",
         ],
         subchecks: vec![
-            SubCheck::new("txn", honest::run_txn, 60_000, 1_000_000, 1200),
-            SubCheck::new("seq", seq::run_seq, 30_000, 250_000, 1200),
-            SubCheck::new("tamper", tamper::run_tamper, 150_000, 2_500_000, 1000),
-            SubCheck::new("wrappers", wrappers::run_wrappers, 20_000, 250_000, 600),
+            SubCheck::new("txn", honest::run_txn, 200_000, 2_500_000, 1200),
+            SubCheck::new("seq", seq::run_seq, 100_000, 600_000, 1200),
+            SubCheck::new("tamper", tamper::run_tamper, 500_000, 6_000_000, 1000),
+            SubCheck::new("wrappers", wrappers::run_wrappers, 60_000, 600_000, 600),
         ],
         health: Some(health),
         extra: None,
